@@ -18,7 +18,7 @@ ARMED = {
  'C03': ('defect signature and norm dispatch of every compute_residual, send->receive->residual->decision order in IT_CHECK by CFG dominance, boolean normal form of the convergence predicate, who-may-write tables for status.iter/done, logged fields = deciding fields',
          'not decided: the value of the residual, norm axioms. One defect found by the rule was repaired (fix d42d667).',
          'CFG dominance + who-may-write tables + boolean normal forms over the AST', '4 C03'),
- 'C04': ('ONLY structural clauses about the Runge-Kutta sweepers and the start value: update_nodes of RungeKutta / RungeKuttaIMEX are the stage equations of a Butcher tableau; primary end point with weight row 0 and embedded one with row 1 over the same stage derivatives, last stage copied exactly when stiffly accurate; embedded wiring (genCoeffs(embedded=True) <=> ButcherTableauEmbedded, every embedded class documents an update order, AdaptivityRK takes it, estimate = |primary - embedded|); spread predictor copies u0 to every node',
+ 'C04': ('ONLY structural clauses: for the SDC sweepers the sweep / end-point signatures and the QDelta cancellation shared with C01/C02 (necessary for one order per sweep and for the converged iteration being the collocation method), and about the Runge-Kutta sweepers and the start value: update_nodes of RungeKutta / RungeKuttaIMEX are the stage equations of a Butcher tableau; primary end point with weight row 0 and embedded one with row 1 over the same stage derivatives, last stage copied exactly when stiffly accurate; embedded wiring (genCoeffs(embedded=True) <=> ButcherTableauEmbedded, every embedded class documents an update order, AdaptivityRK takes it, estimate = |primary - embedded|); spread predictor copies u0 to every node',
          'NOT decided (numeric): order min(k, p) after k SDC sweeps, the stability function of the converged iteration, that any tableau or embedded pair has the order it documents - the integers returned by get_update_order are not checked against the tableaux (which live in qmat).',
          'term normaliser on the stage and end-point loops (zip loops, guards in NNF), class-body table extraction over the 30 Runge-Kutta classes', '11.1 (C04)'),
  'C05': ('ONLY the structural clauses: the qmat generator is requested for exactly (num_nodes, node_type, quad_type, tleft, tright) and bad arguments raise; end-point flag tables and the automatic collocation update; zero-padded (M+1)x(M+1) Q and S with the generator Q / parent-class S in [1:,1:] and nothing else stored, private copies of nodes/weights, no later in-place store anywhere in the library; node distances',
